@@ -88,6 +88,9 @@ CHECKS = {
             {"harnesses": [H + "ZZH3RoundTrip"], "quick": {"budget": 2, "atoms": 1, "funcs": 1, "follow": 1}, "thorough": {"budget": 2, "atoms": 2, "funcs": 1, "follow": 1}},
             # a bare block statement follows (pretty printing without semicolons must keep the two statements apart)
             {"harnesses": [H + "ZZH3RoundTrip"], "quick": {"budget": 2, "atoms": 1, "funcs": 1, "follow": 2}, "thorough": {"budget": 2, "atoms": 2, "funcs": 1, "follow": 2}},
+            # statement trees assembled from the constructors: every nesting of if / if-else / while / for / block / function
+            # with <= sbudget compound statements (dangling else, declarations in lists, for headers with and without parts)
+            {"harnesses": [H + "ZZH3Statements"], "quick": {"sbudget": 3, "stmts": 1, "sleaves": 1, "maxblock": 1}, "thorough": {"sbudget": 3, "stmts": 2, "sleaves": 2, "maxblock": 2}},
         ],
     },
     "C06": {
